@@ -58,3 +58,33 @@ void harness(void) {
 	if (res == KSI_OUT_OF_MEMORY) REACH("reset: no memory");
 }
 #endif
+
+#ifdef H_bs_addleaf
+void harness(void) {
+	KSI_BlockSigner *s = malloc(sizeof(*s));
+	KSI_TreeBuilder *b0 = NULL; KSI_DataHash *hsh = nondet_bool() ? mk_hash() : NULL; KSI_MetaData *md = (KSI_MetaData *)(nondet_bool() ? &g_ctx_obj : NULL);
+	static struct KSI_BlockSignerHandle_st sentinel;
+	int res;
+	if (s == NULL) return;
+	s->ctx = &g_ctx_obj; s->ref = 1;
+	if (KSI_TreeBuilder_new(&g_ctx_obj, KSI_HASHALG_SHA2_256, &b0) != KSI_OK) return;
+	s->builder = b0; b0->hsr = &g_bs_hsr_obj;
+	s->signature = NULL; s->origPrevLeaf = NULL; s->prevLeaf = NULL; s->iv = NULL;
+	if (nondet_bool()) {
+		s->origPrevLeaf = mk_hash(); s->prevLeaf = nondet_bool() ? mk_hash() : KSI_DataHash_ref(s->origPrevLeaf);
+		s->iv = malloc(sizeof(struct KSI_OctetString_st));
+		if (s->origPrevLeaf == NULL || s->prevLeaf == NULL || s->iv == NULL) return;
+		s->iv->ref = 1;
+	}
+	s->metaData = NULL; s->hsr = &g_bs_hsr_obj;
+	s->metaDataProcessor.c = s; s->metaDataProcessor.fn = metaDataProcessor; s->metaDataProcessor.levelOverhead = 1;
+	s->maskingProcessor.c = s; s->maskingProcessor.fn = maskingProcessor; s->maskingProcessor.levelOverhead = 1;
+	/* processors installed as KSI_BlockSigner_new does: meta-data first, masking second */
+	g_cb_el[0] = &s->metaDataProcessor; g_cb_el[1] = &s->maskingProcessor; g_cb_n = 2;
+	g_add_calls = 0; g_bs_live = 3; g_bsh_out = &sentinel;
+	res = KSI_BlockSigner_addLeaf(s, hsh, nondet_int(), md, nondet_bool() ? &g_bsh_out : NULL);
+	REACH("addLeaf returns");
+	if (res == KSI_OK && s->iv != NULL) REACH("masked leaf added");
+	if (res != KSI_OK && g_add_calls == 1 && s->iv != NULL) REACH("masked leaf refused by the tree builder");
+}
+#endif
